@@ -61,6 +61,7 @@ fn run_forked(def: &'static CheckDef, job: &str, arg: &str) -> String {
     let pid = unsafe { libc::fork() };
     if pid == 0 {
         unsafe { libc::close(fds[0]); }
+        crate::alloc_seam::RESULT_FD.store(fds[1], std::sync::atomic::Ordering::SeqCst);
         let out = match build_scenario(def, job, arg) {
             Ok(sc) => { let seed = sc.seed; let mut o = (def.exec)(&sc); o.seed = seed; o }
             Err(e) => Outcome { verdict: "harness".into(), note: e, ..Default::default() },
